@@ -36,6 +36,9 @@ Check(e) ==
          /\ UNCHANGED <<idx, last, cfg>>
     [] e.ev = "dialfail" -> idx' = idx + 1 /\ last' = e.t /\ UNCHANGED cfg      \* t : the instant the attempt failed
     [] e.ev = "ready" -> idx' = 0 /\ UNCHANGED <<last, cfg>>
+    \* the connection was established (the client received the server preface), whatever happens to it afterwards:
+    \* "the backoff index resets after a successful connection"
+    [] e.ev = "estab" -> idx' = 0 /\ UNCHANGED <<last, cfg>>
     [] e.ev = "resetbo" -> idx' = 0 /\ UNCHANGED <<last, cfg>>
     [] e.ev = "panic" -> Keep /\ MarkStrong(TRUE, "NoPanic", l)
     [] OTHER -> e.ev = "reset" /\ idx' = 0 /\ last' = <<0>> /\ cfg' = NoCfg
